@@ -1601,3 +1601,48 @@ def fold_module_tables(tree: ast.Module) -> int:
     if _Fold.count:
         ast.fix_missing_locations(tree)
     return _Fold.count
+
+
+# ---------------------------------------------------------------- helpers inherited from another module
+def adopt_inherited_helpers(modules: List[Tuple[str, ast.Module]], known: Set[str]) -> int:
+    """A private method that the rule tables do not know, defined in a base class of ANOTHER
+    module of the package and not overridden, is copied into the subclass, so that the
+    module-local expansion of unknown helpers reads `self._helper(..)` there as well.  Only
+    helpers that refer to nothing but their parameters, attributes of self and builtins are
+    copied (the copy lives in another module's namespace)."""
+    import builtins as _b
+
+    classes: Dict[str, List[Tuple[str, ast.ClassDef]]] = {}
+    for mname, tree in modules:
+        for n in tree.body:
+            if isinstance(n, ast.ClassDef):
+                classes.setdefault(n.name, []).append((mname, n))
+    count = 0
+    for mname, tree in modules:
+        for cls in [n for n in tree.body if isinstance(n, ast.ClassDef)]:
+            own = {m.name for m in cls.body if isinstance(m, (ast.FunctionDef, ast.AsyncFunctionDef))}
+            seen_bases = set()
+            work = [b.id if isinstance(b, ast.Name) else (b.attr if isinstance(b, ast.Attribute) else None) for b in cls.bases]
+            while work:
+                bn = work.pop(0)
+                if bn is None or bn in seen_bases or bn not in classes or len(classes[bn]) != 1:
+                    continue
+                seen_bases.add(bn)
+                bmod, bcls = classes[bn][0]
+                work += [b.id if isinstance(b, ast.Name) else (b.attr if isinstance(b, ast.Attribute) else None) for b in bcls.bases]
+                if bmod == mname:
+                    continue
+                for m in bcls.body:
+                    if not isinstance(m, ast.FunctionDef) or not m.name.startswith("_") or m.name.startswith("__") or m.name in own:
+                        continue
+                    if f"{bmod}:{bn}.{m.name}" in known or m.decorator_list:
+                        continue
+                    params = {a.arg for a in m.args.posonlyargs + m.args.args + m.args.kwonlyargs}
+                    local = {x.id for x in ast.walk(m) if isinstance(x, ast.Name) and isinstance(x.ctx, ast.Store)}
+                    free = {x.id for x in ast.walk(m) if isinstance(x, ast.Name) and isinstance(x.ctx, ast.Load)} - params - local
+                    if any(not hasattr(_b, f) for f in free):
+                        continue
+                    cls.body.append(clone_ast(m))
+                    own.add(m.name)
+                    count += 1
+    return count
